@@ -39,6 +39,9 @@ func (c *RuleCtx) allocSites(typeName string) map[string][]ssa.Instruction {
 			if !ok {
 				return
 			}
+			if !al.Heap {
+				return // spilled value receiver / local copy, not a construction
+			}
 			if typeShort(al.Type()) == "*"+typeName {
 				n := c.P.FuncName(fn)
 				out[n] = append(out[n], in)
